@@ -4,7 +4,8 @@ import Pcore.Model.LoaderTS
 # The dependency loader inside the sequential loader model (property C12)
 
 `px.NewDependencyLoader(modules)`: a loader WITHOUT parent that answers from its own entry map and, for a name it has no
-entry for, asks its module loaders and then KEEPS what they answered — value or miss — in its own entry map.
+entry for, asks its module loaders and KEEPS a value they answered in its own entry map (a miss is recorded there too, but asked
+again next time).
 Mirrors loader/dependency.go at HEAD; core Lean only.
 
 | Go                                                                 | Lean                    |
@@ -13,7 +14,7 @@ Mirrors loader/dependency.go at HEAD; core Lean only.
 | `types/typedname.go` `Parts()`: lower-cased `::` segments, each must match `\A[A-Za-z][0-9A-Z_a-z]*\z`, else panic `InvalidCharactersInName` | `partsOf` (`none` = the panic) |
 | `typedName.IsQualified` (`strings.Contains(name, "::")`)           | `isQualified`           |
 | `dependencyLoader.find`: a qualified name whose first segment is an indexed module name is answered by THAT module alone (whatever it answers: nil, a cached miss, a value); otherwise the first module, in declaration order, whose `LoadEntry` has a value; otherwise the own entry (nil) | `depFind`, `depLoop` |
-| `dependencyLoader.LoadEntry`: own entry if there is one (a cached miss included); else `find`, a nil answer becomes a fresh placeholder, and the result is stored with `SetEntry` in the OWN map | `depLoadEntry` |
+| `dependencyLoader.LoadEntry`: own entry if it has a VALUE; else (no entry, or a recorded miss) `find`: a value found is stored with `SetEntry` in the OWN map (over the recorded miss, if any); nothing found: the miss is recorded when there was no entry | `depLoadEntry` |
 | `parentedLoader.LoadEntry` over a chain whose root may be a dependency loader (the root's `LoadEntry` writes) | `loadEntryD` |
 | `load` (= `px.Load`) through such a chain                          | `loadD`                 |
 | `HasEntry`, `GetEntry`, `Discover`, `SetEntry` of a dependency loader: inherited from `basicLoader` — the own map only | `LoaderSeq.step` unchanged (`stepD`) |
@@ -23,13 +24,13 @@ loader has no parent; its module loaders are plain (basic / parented) loaders de
 no dependency loader — as in `internal/runtime.go` `EnvironmentLoader`, where the modules are parented on the system loader.
 Hence a chain holds at most one dependency loader, at its root, and a module's `LoadEntry` is the plain `loadEntryC`.
 
-Quirks reproduced: a miss through the dependency loader is cached THERE for good (known finding
-C12-dependency-miss-sticky: a later definition in a module stays invisible through it); a value is cached too, so what the
+Quirks reproduced: a miss through the dependency loader is recorded THERE but is not final (fix 9d272bd of finding
+C12-dependency-miss-sticky: the modules are asked again on the next lookup); a value is cached for good, so what the
 dependency loader answered once it answers ever after, whatever its modules or their ancestors gain later; `HasEntry` and
 `Discover` see only what was looked up before; a lookup through a CHILD of the dependency loader leaves the cached
 miss in the dependency loader (an ancestor) as well as in the child; the index is keyed by the module name as given while
 the segment is lower-cased (a module `M` is never picked by name); `Parts()` is evaluated — and may panic — only when some
-module has a name and the name is qualified and the dependency loader has no entry for it yet.
+module has a name and the name is qualified and the dependency loader holds no value for it yet.
 -/
 namespace Pcore.LoaderSeq
 
@@ -91,16 +92,22 @@ def depFind (s : Sys) (d : Nat) (mods : Mods) (n : Name) : LE :=
       | none => rest
   else rest
 
-/-- `dependencyLoader.LoadEntry` -/
+/-- `dependencyLoader.LoadEntry` (after fix 9d272bd: a recorded miss is not final) -/
 def depLoadEntry (s : Sys) (d : Nat) (mods : Mods) (n : Name) : Sys × LE :=
   match lk (canon n) (s.ents d) with
-  | some e => (s, .ok (some e))
-  | none =>
+  | some (some v) => (s, .ok (some (some v)))              -- a cached VALUE is final
+  | own =>                                                  -- no entry, or a recorded miss: `find` again
     match depFind s d mods n with
     | .bad => (s, .bad)
     | .ok e =>
-      -- nil → `&loaderEntry{nil, nil}`; then `entry = l.SetEntry(name, entry)` (the key is absent: stored, and handed back)
-      (s.setEnts d (setEntry (s.ents d) (canon n) e.join).1, .ok (some e.join))
+      match e.join with
+      | some v =>
+        -- `entry = l.SetEntry(name, found)`: the key is absent or holds a recorded miss: stored, and handed back
+        (s.setEnts d (setEntry (s.ents d) (canon n) (some v)).1, .ok (some (some v)))
+      | none =>
+        match own with
+        | none => (s.setEnts d (setEntry (s.ents d) (canon n) none).1, .ok (some none))   -- the miss is recorded
+        | _ => (s, .ok own)                                 -- the recorded miss stays and is handed back
 
 /-- `parentedLoader.LoadEntry` along a chain whose root may be a dependency loader -/
 def loadEntryD (dps : List (Option Mods)) (s : Sys) : List Nat → Name → Sys × LE
